@@ -9,6 +9,7 @@ mapping rev = ([ ]);       // object -> "o5"
 mapping names = ([ ]);     // "o5" -> "c08/b1#3"
 mapping lnames = ([ ]);    // "o5" -> living name
 mapping scripts = ([ ]);   // "o5:init" -> ({ ops, ops, ... })
+int act_ret = 1;
 object keep;
 mixed *keepa = ({ 0 });
 mapping keepm = ([ ]);
